@@ -95,6 +95,10 @@ func runOne(ctx context.Context, sp solverSpec, file string, timeoutS, seed int)
 
 // Solve races the solvers on one query file. definite answers: sat / unsat.
 func Solve(file string, timeoutS int, seed int, confirm bool, immediate bool) SolveResult {
+	// The proofs do not depend on randomness; a seed only perturbs solver heuristics, and some obligations are proved by
+	// one solver configuration only. The primary race therefore always runs the default configurations (seed 0), so that a
+	// check behaves the same under every VERIF_SEED; the given seed adds diversified configurations in SolveHard.
+	seed = 0
 	ctx, cancel := context.WithCancel(context.Background())
 	defer cancel()
 	ch := make(chan SolveResult, len(solvers))
@@ -320,6 +324,7 @@ func writeQuery(dir, name, text string) string {
 // SolveBatch runs several independent queries in one z3 process (separated by (reset)) with a short per-check limit.
 // It returns one result per query; anything not answered sat/unsat is left as "unknown" for the portfolio.
 func SolveBatch(dir, name string, queries []string, perCheckMs int, seed int) []SolveResult {
+	seed = 0 // see Solve
 	out := make([]SolveResult, len(queries))
 	var sb strings.Builder
 	for i, q := range queries {
@@ -385,10 +390,19 @@ func SolveHard(file, absFile string, timeoutS, seed int) SolveResult {
 		jobs = append(jobs, job{solvers[3], absFile, true}, job{solvers[0], absFile, true})
 	}
 	jobs = append(jobs, job{solvers[2], file, false}, job{solvers[1], file, false}, job{solvers[3], file, false}, job{solvers[0], file, false})
+	nDefault := len(jobs)
+	if seed != 0 {
+		// extra configurations diversified by the given seed, beside the default ones
+		jobs = append(jobs, job{solvers[0], file, false}, job{solvers[1], file, false})
+	}
 	ch := make(chan SolveResult, len(jobs))
-	for _, jb := range jobs {
-		go func(jb job) {
-			r := runOne(ctx, jb.sp, jb.file, timeoutS, seed)
+	for i, jb := range jobs {
+		sd := 0
+		if i >= nDefault {
+			sd = seed
+		}
+		go func(jb job, sd int) {
+			r := runOne(ctx, jb.sp, jb.file, timeoutS, sd)
 			if jb.abs {
 				r.Solver += "(mul-abstracted)"
 				if r.Status == "sat" {
@@ -396,7 +410,7 @@ func SolveHard(file, absFile string, timeoutS, seed int) SolveResult {
 				}
 			}
 			ch <- r
-		}(jb)
+		}(jb, sd)
 	}
 	var last SolveResult
 	for range jobs {
